@@ -21,7 +21,9 @@ EXPLANATION = (
     "built after the residual rows were tested to be zero. Also decided (rounds 3-5): gcdx satisfies the extended-Euclid contract (induction on "
     "sampled states) and the integer elimination step is a determinant-(+1) row operation that clears the column and is applied identically to "
     "the multiplier (expressions evaluated on sampled gcdx outputs), so row-swap counting gives the exact determinant sign; the two row-echelon "
-    "twins agree structurally. NOT decided: exact determinant values in general, null-space dimension, completeness of solve, p-adic lifting and "
+    "twins agree structurally. Also decided (round 7): the residue class operators hand the integer operation of the same name on the stored values to "
+    ".into() (expressions evaluated), / is * inverse(); inverse() is the extended Euclid on (P, value) (invariant t*value = r mod P by induction on sampled states, simultaneous "
+    "update, exit at r1 == 0, r == 1 asserted); the dense matrix primitives + - * transpose of VecMatrix and Matrix have the textbook element formulas over full ranges. NOT decided: exact determinant values in general, null-space dimension, completeness of solve, p-adic lifting and "
     "rational reconstruction, overflow.")
 TRUSTED = ["rustc MIR lowering (dev profile)", "A2 i64::rem_euclid(x, P) lies in [0, P-1] for P > 0", "A7 primality by trial division in the checker",
            "weak criterion for the pivot bound: an upper bound on the row counter dominates; equality with the row count is read off the guard term"]
@@ -61,10 +63,296 @@ def run(ctx):
     ctx.scan([gx])
     euclid_contract(ctx, "T7-euclid-contract", gx, g)
     padic_steps(ctx, g)
+    residue_operators(ctx, g)
+    modular_inverse(ctx, g)
+    matrix_ops(ctx, g)
     residues(ctx)
     modulus(ctx)
     pivot(ctx)
     solve_guards(ctx)
+
+
+PRCP = "geometry::prime_residue_classes::PrimeResidueClass<P>"
+
+
+def residue_operators(ctx, g):
+    """+ - * and unary - of residue classes compute the integer operation of the same name on the two stored values and reduce the result through
+    From<i64> (.into()); / multiplies by the modular inverse of the right operand.  The operand expressions are EVALUATED on small values."""
+    ctx.clauses.append("residue class operators: value(a op b) = (value(a) op value(b)).into() with the operator of the same name; a / b = a * b.inverse() (T4, evaluated)")
+    import operator
+    OPS = {"Add": operator.add, "Sub": operator.sub, "Mul": operator.mul}
+    n = 0
+    for d, b in sorted(ctx.facts.bodies.items()):
+        if "{closure" in d or "PrimeResidueClass<P>" not in d or " as std::ops::" not in d:
+            continue
+        tr = d.split(" as std::ops::")[1].split("<")[0].split(">")[0]
+        if tr not in ("Add", "Sub", "Mul", "Div", "Neg"):
+            continue
+        n += 1
+        ctx.scan([b])
+        ret = strip(norm(b.local_origin(0), g))
+        a_, b_ = ("param", 1, b.debug.get(1, "")), ("param", 2, b.debug.get(2, ""))
+        va, vb = ("field", a_, "value"), ("field", b_, "value")
+        bad = None
+        if tr == "Div":
+            ok = is_call(ret, "Mul::mul") and strip(ret[2][0]) == a_ and is_call(strip(ret[2][1]), "PrimeResidueClass::<P>::inverse") and strip(strip(ret[2][1])[2][0]) == b_
+            bad = None if ok else "a / b is not a * b.inverse(): %s" % show(ret, 1)[:60]
+        else:
+            if not is_call(ret, "Into::into"):
+                bad = "the result is not reduced through .into(): %s" % show(ret, 1)[:60]
+            else:
+                ex = unov_term(fold_std_ops(strip(ret[2][0])))
+                for x, y in ((0, 0), (1, 6), (6, 1), (5, 3), (3, 5), (2, 2)):
+                    got = eval_term_env(ex, {va: x, vb: y})
+                    want = -x if tr == "Neg" else OPS[tr](x, y)
+                    if got != want:
+                        bad = "for stored values %d and %d the integer handed to .into() is %s, not %d (%s)" % (x, y, got, want, tr)
+                        break
+        ctx.ob("T4-residue-operators", d, tr, "ok" if not bad else "violation", "integer %s of the stored values, reduced by From<i64>" % tr if not bad and tr != "Div" else (bad or "a * b.inverse()"))
+    ctx.floor("residue class operator impls", n, 14)
+    # From<i64>: the stored value is n.rem_euclid(P)
+    fb = ctx.body("<%s as std::convert::From<i64>>::from" % PRCP)
+    ret = strip(norm(fb.local_origin(0), g))
+    ok = ret[0] == "agg" and len(ret[2]) == 1 and is_call(strip(ret[2][0]), "rem_euclid") and strip(strip(ret[2][0])[2][0]) == ("param", 1, fb.debug.get(1, "")) and strip(strip(ret[2][0])[2][1])[0] == "tyconst"
+    ctx.ob("T4-residue-operators", fb.name, "value: n.rem_euclid(P)", "ok" if ok else "violation",
+           "the canonical representative is n.rem_euclid(P)" if ok else "From<i64> does not store n.rem_euclid(P): %s" % show(ret, 1)[:60])
+
+
+def modular_inverse(ctx, g):
+    """PrimeResidueClass::inverse is the extended Euclid on (P, value): with the invariant t * value = r and t1 * value = r1 (mod P) the loop
+    ends with r = gcd(P, value) = 1 and t the inverse.  Decided by induction on sampled states (update expressions evaluated, not executed)"""
+    import random
+    ctx.clauses.append("modular inverse: extended Euclid on (P, value) keeps t * value = r, t1 * value = r1 (mod P), shifts r := r1, shrinks r1, ends at r1 == 0, asserts r == 1 and answers t (T7, induction on sampled states)")
+    b = ctx.body("geometry::prime_residue_classes::PrimeResidueClass::<P>::inverse")
+    ctx.scan([b])
+    names = {v: k for k, v in b.debug.items()}
+    me = ("param", 1, b.debug.get(1, ""))
+    P_ = None
+    try:
+        t, t1, r, r1 = [("local", names[x], x) for x in ("t", "t1", "r", "r1")]
+    except KeyError:
+        # names are not part of the contract: recover the four carried variables from the result and the loop
+        t = strip(norm(b.local_origin(0), g))
+        t = strip(t[2][0]) if is_call(t, "Into::into") else t
+        raise AnchorMissing("inverse(): carried variables t, t1, r, r1")
+    loops = natural_loops(b)
+    lb = set()
+    for h_, bl_ in loops:
+        lb |= set(bl_)
+    defs = {}
+    for x in (t, t1, r, r1):
+        ds = [(dbb, norm(d, g)) for dbb, d in b.all_defs_origins(x[1])]
+        defs[x] = ([d for dbb, d in ds if dbb not in lb], [d for dbb, d in ds if dbb in lb])
+    bad = None
+    if not all(len(defs[x][0]) == 1 and len(defs[x][1]) == 1 for x in defs):
+        bad = "t, t1, r, r1 are not each initialised once and updated once per iteration"
+    ret = strip(norm(b.local_origin(0), g))
+    if not bad and not (is_call(ret, "Into::into") and strip(ret[2][0]) == t):
+        bad = "the result is not t.into(): %s" % show(ret, 1)[:40]
+    carried = (t, t1, r, r1)
+
+    def expand(tm, depth=0):
+        def f(x):
+            if x[0] == "local" and x not in carried and depth < 6:
+                ds = b.all_defs_origins(x[1])
+                if len(ds) == 1:
+                    return expand(norm(ds[0][1], g), depth + 1)
+            return None
+        return map_term(tm, f)
+    n = 0
+    if not bad:
+        pt = [x for x in subterms(defs[r][0][0]) if isinstance(x, tuple) and x and x[0] == "tyconst"]
+        P_ = pt[0] if pt else None
+        val = ("field", me, "value")
+        init = [eval_term_env(fold_std_ops(expand(defs[x][0][0])), {P_: 61, val: 17}) if P_ else None for x in carried]
+        if init != [0, 1, 61, 17]:
+            bad = "for P = 61 and value 17 the initial state (t, t1, r, r1) is %s, not (0, 1, 61, 17)" % init
+    if not bad:
+        late = overwritten_reads(b, lb, carried)
+        if late:
+            nm = lambda l: b.debug.get(l, "_%d" % l)
+            bad = "the new value of %s is computed from %s after %s has been overwritten in the same iteration (%s)" % (nm(late[0][0]), nm(late[0][1]), nm(late[0][1]), late[0][2])
+    if not bad:
+        upd = [unov_term(fold_std_ops(expand(defs[x][1][0]))) for x in carried]
+        rnd = random.Random(11)
+        for _ in range(400):
+            P = rnd.choice((7, 61, 97))
+            v = rnd.randint(1, P - 1)
+            tv, t1v = rnd.randint(-30, 30), rnd.randint(-30, 30)
+            rv, r1v = tv * v + rnd.randint(-3, 3) * P, t1v * v + rnd.randint(-3, 3) * P
+            if r1v == 0:
+                continue
+            new = [eval_term_env(e, dict(zip(carried, (tv, t1v, rv, r1v)))) for e in upd]
+            if any(x is None for x in new):
+                bad = "the update expressions cannot be evaluated: %s" % [show(e, 1)[:40] for e, x in zip(upd, new) if x is None][:1]
+                break
+            nt, nt1, nr, nr1 = new
+            n += 1
+            st = "(t, t1, r, r1) = %s with P = %d, value = %d" % ((tv, t1v, rv, r1v), P, v)
+            if (nt * v - nr) % P or (nt1 * v - nr1) % P:
+                bad = "the step does not keep t * value = r, t1 * value = r1 (mod P): from %s it yields %s" % (st, tuple(new))
+            elif nr != r1v or nt != t1v:
+                bad = "the step does not shift (t, r) := (t1, r1): from %s it yields %s" % (st, tuple(new))
+            elif abs(nr1) >= abs(r1v):
+                bad = "the step does not make |r1| smaller: from %s it yields r1 = %d" % (st, nr1)
+            if bad:
+                break
+    ctx.ob("T7-modular-inverse", b.name, "init / step / result", "ok" if not bad and n else "violation",
+           "(0, 1, P, value); invariant, shift and decrease hold on %d sampled states; result t.into()" % n if not bad and n else (bad or "nothing evaluated"))
+    # exit exactly at r1 == 0; r == 1 asserted before the result is built
+    badx = None
+    nx = 0
+    for h, blocks in loops:
+        for (x1, x2), atoms in loop_exit_atoms(b, h, blocks, g):
+            nx += 1
+            for v in (-3, 0, 1, 5):
+                vals = [eval_atom_env(at, {r1: v}) for at in atoms]
+                vals = [x for x in vals if x is not None]
+                if not vals or all(vals) != (v == 0):
+                    badx = "the loop is not left exactly when r1 == 0"
+    asserted = False
+    for rb in b.return_blocks():
+        for a in b.facts_at(rb):
+            a = atom_norm(a, g)
+            if a[0] == "rel" and a[1] == "Eq" and {strip(a[2]), strip(a[3])} == {r, ("int", 1)}:
+                asserted = True
+            if a[0] == "bool" and a[2] is True and a[1][0] == "binop" and a[1][1] == "Eq" and {strip(a[1][2]), strip(a[1][3])} == {r, ("int", 1)}:
+                asserted = True
+    ctx.ob("T7-modular-inverse", b.name, "exit / gcd asserted", "ok" if nx >= 1 and not badx and asserted else "violation",
+           "the loop ends at r1 == 0 and r == 1 is asserted before t is returned (no inverse of 0 is invented)" if nx >= 1 and not badx and asserted else
+           (badx or ("r == 1 is not asserted before the result: 0.inverse() returns a number" if not asserted else "no loop exit")))
+
+
+def matrix_ops(ctx, g):
+    """the dense matrix primitives the solvers are written in: A + B, A - B element-wise with the operator of the same name, A * B =
+    sum_k A[i][k] * B[k][j] with the accumulator reset per entry, transpose[i][j] = self[j][i]; all loops over the full index ranges.  For
+    VecMatrix the shapes are fields, for the const-generic Matrix they are the type's parameters"""
+    ctx.clauses.append("matrix primitives: + and - element-wise, * as row-by-column sums with a fresh accumulator per entry, transpose swaps the indices; full ranges (T9)")
+    VM = "geometry::vec_matrix::VecMatrix<T>"
+    MM = "geometry::matrix::Matrix<T, N, M>"
+    n = 0
+
+    def dims_of(d, which):
+        """(rows, cols) terms of self (1) / rhs (2) for body name d"""
+        return None
+
+    def store_of(b):
+        out = []
+        for bi, si, s in b.assigns():
+            pl = s["place"]["p"]
+            if [e["k"] for e in pl] == ["deref", "index"]:
+                base = strip(norm(b.local_origin(s["place"]["l"]), g))
+                if is_call(base, "IndexMut::index_mut"):
+                    out.append((bi, strip(base[2][0]), strip(base[2][1]), strip(norm(b.local_origin(pl[1]["l"]), g)), strip(norm(b.rv_origin(s["rv"]), g))))
+        return out
+
+    def elem(x):
+        """(matrix, i, j) for M[i][j] (also under clone / refs)"""
+        x = strip(x)
+        if is_call(x, "Clone::clone"):
+            x = strip(x[2][0])
+        if x[0] == "index" and is_call(strip(x[1]), "Index::index"):
+            return strip(strip(x[1])[2][0]), strip(strip(x[1])[2][1]), strip(x[2])
+        return None
+
+    def hi_of(b, payload):
+        r = loop_range_of_payload(b, payload, g)
+        if r is None or eval_int(r[0]) != 0 or r[2]:
+            return None
+        return strip(r[1])
+
+    def shape(b, who, axis, dname):
+        """the term a full loop over rows (0) / columns (1) of self (1) / rhs (2) must end at"""
+        if "vec_matrix" in dname:
+            return ("field", ("param", who, b.debug.get(who, "")), "nr_rows" if axis == 0 else "nr_cols")
+        # const generics: read the parameter names from the impl header in the body name
+        import re as _re
+        hdr = dname.split(" as std::ops::")
+        selfd = _re.findall(r"Matrix<T, (\w+), (\w+)>", hdr[0])
+        rhsd = _re.findall(r"Matrix<T, (\w+), (\w+)>", hdr[1]) if len(hdr) > 1 else []
+        dd = selfd[0] if who == 1 and selfd else (rhsd[0] if rhsd else (selfd[0] if selfd else None))
+        return ("tyconstname", dd[axis]) if dd else None
+
+    def same(term, want):
+        if want is None or term is None:
+            return False
+        if want[0] == "tyconstname":
+            return term[0] == "tyconst" and term[1].split("/")[0] == want[1]
+        return term == want
+    for d, b in sorted(ctx.facts.bodies.items()):
+        if "{closure" in d or not (d.startswith("<&geometry::vec_matrix::VecMatrix<T> as std::ops::") or d.startswith("<&geometry::matrix::Matrix<T, N, M> as std::ops::")):
+            continue
+        tr = d.split(" as std::ops::")[1].split("<")[0]
+        if tr not in ("Add", "Sub", "Mul") or "<&geometry" not in d.split(" as std::ops::")[1]:
+            continue
+        ctx.scan([b])
+        me, rhs = ("param", 1, b.debug.get(1, "")), ("param", 2, b.debug.get(2, ""))
+        st = store_of(b)
+        bad = None
+        if len(st) != 1:
+            bad = "%d element stores" % len(st)
+        else:
+            bi, res, I, J, V = st[0]
+            hi_i, hi_j = hi_of(b, I), hi_of(b, J)
+            if tr in ("Add", "Sub"):
+                okv = is_call(V, "%s::%s" % (tr, tr.lower())) and elem(V[2][0]) == (me, I, J) and elem(V[2][1]) == (rhs, I, J)
+                if not okv:
+                    bad = "entry (i, j) is not self[i][j] %s rhs[i][j]: %s" % ("+" if tr == "Add" else "-", show(V, 1)[:80])
+                elif not (same(hi_i, shape(b, 1, 0, d)) and same(hi_j, shape(b, 1, 1, d))):
+                    bad = "the loops do not run over all rows and all columns (%s, %s)" % (show(hi_i, 1)[:30] if hi_i else None, show(hi_j, 1)[:30] if hi_j else None)
+            else:
+                if V[0] != "local":
+                    bad = "the entry stored is not the accumulator: %s" % show(V, 1)[:60]
+                else:
+                    ds = [(dbb, strip(norm(x, g))) for dbb, x in b.all_defs_origins(V[1])]
+                    zero = [dbb for dbb, x in ds if is_call(x, "Zero::zero")]
+                    acc = [(dbb, x) for dbb, x in ds if is_call(x, "Add::add") and V in (strip(x[2][0]), strip(x[2][1]))]
+                    if len(ds) != 2 or len(zero) != 1 or len(acc) != 1:
+                        bad = "the accumulator is not `zero(); x = x + product`"
+                    else:
+                        prod = [y for y in (strip(acc[0][1][2][0]), strip(acc[0][1][2][1])) if y != V][0]
+                        l_, r_ = (elem(prod[2][0]), elem(prod[2][1])) if is_call(prod, "Mul::mul") else (None, None)
+                        if not (l_ and r_ and l_[0] == me and r_[0] == rhs and l_[1] == I and r_[2] == J and l_[2] == r_[1]):
+                            bad = "the product summed is not self[i][k] * rhs[k][j]: %s" % show(prod, 1)[:90]
+                        else:
+                            kk = map_term(l_[2], lambda y: norm(b.local_origin(y[1]), g) if y[0] == "local" and b.is_stable_local(y[1]) else None)
+                            hi_k = hi_of(b, strip(kk))
+                            lp_i, lp_j = loop_containing(b, bi), None
+                            loops_ = natural_loops(b)
+                            inner_of_zero = [h for h, bl in loops_ if zero[0] in bl]
+                            inner_of_acc = [h for h, bl in loops_ if acc[0][0] in bl]
+                            if not (same(hi_i, shape(b, 1, 0, d)) and same(hi_j, shape(b, 2, 1, d)) and same(hi_k, shape(b, 1, 1, d))):
+                                bad = "the loops do not run over rows of self, columns of rhs and the shared dimension (%s, %s, %s)" % tuple(show(x, 1)[:25] if x else None for x in (hi_i, hi_j, hi_k))
+                            elif not (len(inner_of_zero) == 2 and len(inner_of_acc) == 3):
+                                bad = "the accumulator is not reset once per entry (zero() inside %d loops, the sum inside %d)" % (len(inner_of_zero), len(inner_of_acc))
+        n += 1
+        ctx.ob("T9-matrix-ops", d, tr, "ok" if not bad else "violation", {"Add": "result[i][j] = self[i][j] + rhs[i][j] over all rows and columns", "Sub": "result[i][j] = self[i][j] - rhs[i][j] over all rows and columns",
+                                                                         "Mul": "result[i][j] = sum_k self[i][k] * rhs[k][j], accumulator reset per entry, full ranges"}[tr] if not bad else bad)
+    for d in ("geometry::vec_matrix::VecMatrix::<T>::transpose", "geometry::matrix::Matrix::<T, N, M>::transpose"):
+        b = ctx.body(d)
+        ctx.scan([b])
+        me = ("param", 1, b.debug.get(1, ""))
+        st = store_of(b)
+        bad = None
+        if len(st) != 1:
+            bad = "%d element stores" % len(st)
+        else:
+            bi, res, I, J, V = st[0]
+            if elem(V) != (me, J, I):
+                bad = "entry (i, j) of the transpose is not self[j][i]: %s" % show(V, 1)[:70]
+            else:
+                hi_i, hi_j = hi_of(b, I), hi_of(b, J)
+                if "vec_matrix" in d:
+                    okr = hi_i == ("field", me, "nr_cols") and hi_j == ("field", me, "nr_rows")
+                    news = [[strip(norm(b.origin(a), g)) for a in t["args"]] for _, t in b.calls("VecMatrix::<T>::new")]
+                    okr = okr and news == [[("field", me, "nr_cols"), ("field", me, "nr_rows")]]
+                else:
+                    okr = hi_i is not None and hi_j is not None and hi_i[0] == "tyconst" and hi_i[1].split("/")[0] == "M" and hi_j[0] == "tyconst" and hi_j[1].split("/")[0] == "N"
+                if not okr:
+                    bad = "the transpose is not built with (columns, rows) of self over the full ranges"
+        n += 1
+        ctx.ob("T9-matrix-ops", d, "transpose", "ok" if not bad else "violation", "result[i][j] = self[j][i] for i < columns, j < rows" if not bad else bad)
+    ctx.floor("matrix primitives checked", n, 8)
 
 
 def _gcdx(a, b):
